@@ -3,7 +3,7 @@
 // (class, insertion id) read through the public API. Oracle = reference model (stable order by
 // class rank) + execution order observed by recording handlers.
 #include "common.h"
-#include "qtlogger/sortedpipeline.h"
+#include "vx_qtlogger.h"
 
 using namespace QtLogger;
 
@@ -148,6 +148,7 @@ std::string runHistory(const std::vector<int> &hist, vx::Summary *sum, bool *vio
     }
     std::string act = w.actual(true), exp = w.expected(true);
     if (violated) *violated = false;
+    if (sum) sum->digestAdd(histJson(hist) + "=>" + act);
     if (act != exp) {
         if (violated) *violated = true;
         if (sum) {
